@@ -10,13 +10,22 @@ EXTRA_PROP_MODULES = [("KB.Props.OrderC15", "KB.OrderC15"), ("KB.Props.C18Cas", 
 
 ENGINES = ["memkv", "badger", "tikv"]
 
+# the real Campaign() of a restarted node: plain; with the engine-timestamp read after its lock write failing (tso; mtso = the
+# same behind the storage-metrics wrapper of --enable-storage-metrics, the failure injected below the wrapper) or slow; over
+# a store whose election record is missing (fresh: the Create path) or was RELEASED by the previous leader (released: an
+# Update over a holder-less record); slowget = the started-leading callback consults the lock before the renew loop's first
+# poll has re-read the record (the order of the two goroutines on a networked engine)
+REAL_OPTS = {"plain": "", "tso": " f=tso", "mtso": " f=tso", "fresh": " fresh=1 f=tsoslow", "slow": " f=tsoslow", "tso2": " f=tso2",
+             "released": " released=1 slowget=1", "freshslow": " fresh=1 slowget=1", "plainslow": " slowget=1"}
+REALS = [None, "plain", "tso", "fresh", "slow", "tso2", "released", "freshslow", "mtso", "plainslow"]
+
 
 def gen_case(seed, i, engine, heavy_failures, real=None):
     r = rng_for(seed, "c15/%d" % i)
     keys = r.sample([k for k in KEY_POOL if b"events" not in k][:8], r.randint(2, 4))
     sh = hist.Shadow()
     # the first leader starts as every leader does: from the engine timestamp of its lock write
-    lines = [hist.cfg_line(engine, init=0), "restart id=n1"]
+    lines = [hist.cfg_line(("metrics-" + engine) if real == "mtso" else engine, init=0), "restart id=n1"]
     # old leader's history; with heavy_failures most requests fail (they consume revisions without touching the engine)
     n = r.randint(3, 25)
     lines += hist.gen_writes(r, sh, n, keys, p_ok=0.15 if heavy_failures else 0.85, sync=False)
@@ -30,7 +39,7 @@ def gen_case(seed, i, engine, heavy_failures, real=None):
     # the take-over: either the harness's transcription of leader.go, or (real) the REAL
     # leader.NewLeaderElection(...).Campaign() of a restarted node, optionally with the engine-timestamp read
     # after its lock write failing
-    lines.append("restart" if real is None else "campaign id=n1" + {"plain": "", "tso": " f=tso", "fresh": " fresh=1 f=tsoslow", "slow": " f=tsoslow", "tso2": " f=tso2"}[real])
+    lines.append("restart" if real is None else "campaign id=n1" + REAL_OPTS[real])
     lines.append("list %s %s 0 0" % (hx(PREFIX + b"/"), hx(PREFIX + b"0")))
     for k in keys:
         lines.append("get %s 0" % hx(k))
@@ -104,8 +113,8 @@ def oracle(case):
 
 
 def check_main(rep, tier, seed):
-    n = 18 if tier == "quick" else 1200
-    cases = [gen_case(seed, i, ENGINES[i % 3], heavy_failures=(i % 2 == 0), real=[None, "plain", "tso", "fresh", "slow", "tso2"][(i // 3) % 6]) for i in range(n)]
+    n = 3 * len(REALS) if tier == "quick" else 1200
+    cases = [gen_case(seed, i, ENGINES[i % 3], heavy_failures=(i % 2 == 0), real=REALS[(i // 3) % len(REALS)]) for i in range(n)]
     cases += [sync_order_case(i) for i in range(3)]
     core.run_cases(cases)
     for c in cases:
